@@ -133,6 +133,9 @@ class SQLDumper(DumperBase):
                 update_keys = converted_resource.get('update_keys')
                 if update_keys is None:
                     update_keys = schema_descriptor.get('primaryKey', [])
+                if isinstance(update_keys, str):
+                    # Table Schema allows a single field name
+                    update_keys = [update_keys]
             self.passed_rows = collections.deque()
             logging.info('Writing to DB %s -> %s (mode=%s, keys=%s)',
                          resource_name, table_name, mode, update_keys)
